@@ -126,6 +126,7 @@ func gen(t *rapid.T) scen.Case {
 	c.Bystanders = rapid.Bool().Draw(t, "by")
 	c.ForeignVol = rapid.IntRange(0, 3).Draw(t, "foreign") == 0
 	c.DupVol = rapid.IntRange(0, 3).Draw(t, "dup") == 0
+	c.SymlinkVols = rapid.IntRange(0, 5).Draw(t, "symlink") == 0
 	if rapid.IntRange(0, 4).Draw(t, "stale") == 0 {
 		c.StaleNRec = rapid.IntRange(1, 9).Draw(t, "stalenrec")
 	}
@@ -154,6 +155,9 @@ func TestCheck(t *testing.T) {
 		}
 		if c.DupVol {
 			rec.Class("duplicate-volume")
+		}
+		if c.SymlinkVols {
+			rec.Class("symlinked-volumes")
 		}
 		if c.StaleNRec > 0 && c.StaleNRec != c.NRec {
 			rec.Class("stale-overlapping-volumes")
